@@ -295,8 +295,8 @@ def norm_closure_underscore(text, m):
 
 
 _N13_ZIP_ALL = re.compile(r"(?<![\w.])(\w+)(\s*\.iter\(\)\s*\.zip\()(\w+)(\.iter\(\)\)\s*\.all\()(?=\|)")
-_N13_ALL = re.compile(r"(?<![\w.])(\w+)(\s*\.iter\(\)\s*\.all\()(?=\|)")
-_N13_ANY = re.compile(r"(?<![\w.])(\w+)(\s*\.iter\(\)\s*\.any\()(?=\|)")
+_N13_ALL = re.compile(r"(?<![\w.])(\w+(?:\.\w+)*)(\s*\.iter\(\)\s*\.all\()(?=\|)")
+_N13_ANY = re.compile(r"(?<![\w.])(\w+(?:\.\w+)*)(\s*\.iter\(\)\s*\.any\()(?=\|)")
 _N13_ZIP_MAP = re.compile(r"(?<![\w.])(\w+\s*\.iter\(\))(\s*\.zip\()(\w+\s*\.iter\(\))(\)\s*\.map\()(?=\|)")
 _N13_MAP = re.compile(r"(?<![\w.])(\w+\s*\.iter\(\))(\s*\.map\()(?=\|)")
 _N13_POSITION = re.compile(r"(?<![\w.])(\w+(?:\[[^\]\n]*\])?)(\s*\.iter\(\)\s*\.position\()(?=\|)")
@@ -304,6 +304,8 @@ _N13_SET_COLLECT = re.compile(r"(?<![\w.])(\w+)(\s*\.into_iter\(\)\s*\.collect\(
 _N13_CLONED_COLLECT = re.compile(r"(?<![\w.])(\w+)(\s*\.iter\(\)\s*\.cloned\(\)\s*\.collect\(\))")
 _N13_FILTER_COUNT = re.compile(r"(?<![\w.])(\w+(?:\.\w+)*(?:\[[^\]\n]*\])?)(\s*\.iter\(\)\s*\.filter\()(?=\|)")
 _N13_TAIL_COUNT = re.compile(r"\)\s*\.count\(\)")
+_N13_SET_FILTER = re.compile(r"(?<![\w.])(\w+(?:\s*\.\s*\w+)*)(\s*\.iter\(\)\s*\.filter\()(?=\|)")
+_N13_TAIL_COPIED_COLLECT = re.compile(r"\)\s*\.copied\(\)\s*\.collect\(\)")
 _N13_FILTER_MAP = re.compile(r"(?<![\w.])(\w+(?:\s*\.\s*\w+)*)(\s*\.iter\(\)\s*\.filter_map\()(?=\|)")
 _N13_FOLD = re.compile(r"(?<![\w.])(\w+\s*\.iter\(\))(\s*\.fold\()")
 _N13_TAIL_COLLECT = re.compile(r"\)\s*\.collect\(\)")
@@ -403,6 +405,17 @@ def norm_iter_chains(text, m, body_open, body_close):
         if not t:
             continue
         edits.append(Edit(mm.start(1), "", "verif_filter_count(&", "norm:N13"))
+        edits.append(Edit(mm.start(2), text[mm.start(2) : mm.end(2)], ", ", "norm:N13"))
+        edits.append(Edit(t.start(), text[t.start() : t.end()], ")", "norm:N13"))
+    # `S.iter().filter(C).copied().collect()` over a HashSet of Copy keys -> `verif_set_filter_collect(&S, C)`
+    for mm in _N13_SET_FILTER.finditer(m, body_open, body_close):
+        c = closure_at(mm.end())
+        if c is None:
+            continue
+        t = _N13_TAIL_COPIED_COLLECT.match(m, c[3])
+        if not t:
+            continue
+        edits.append(Edit(mm.start(1), "", "verif_set_filter_collect(&", "norm:N13"))
         edits.append(Edit(mm.start(2), text[mm.start(2) : mm.end(2)], ", ", "norm:N13"))
         edits.append(Edit(t.start(), text[t.start() : t.end()], ")", "norm:N13"))
     for mm in _N13_FILTER_MAP.finditer(m, body_open, body_close):
